@@ -3,11 +3,44 @@
 package receiver
 
 import (
+	"fmt"
+	"math/rand/v2"
 	"os"
-
-	"github.com/google/renameio/v2"
+	"path/filepath"
 )
 
+// symlink creates newname as a symbolic link to oldname within root,
+// atomically replacing newname if it exists.
+//
+// This used to call renameio.SymlinkRoot, whose replace path creates its
+// temporary directory with os.MkdirTemp(root.Name(), …). For the root of an
+// upload sub-directory (opened with (*os.Root).OpenRoot), Name() is a relative
+// path in Go 1.25.0, so replacing an existing symlink failed (or touched the
+// daemon's working directory). Everything below stays relative to root.
 func symlink(root *os.Root, oldname, newname string) error {
-	return renameio.SymlinkRoot(root, oldname, newname)
+	// Fast path: if newname does not exist yet, there is nothing to replace.
+	if err := root.Symlink(oldname, newname); err == nil || !os.IsExist(err) {
+		return err
+	}
+
+	// Create the new symlink under a temporary name in the same directory,
+	// then rename it over newname (removing first would create a TOCTOU race).
+	// The temporary name does not contain newname's base name, so that names
+	// close to NAME_MAX can be replaced, too.
+	for range 10000 {
+		tmp := filepath.Join(filepath.Dir(newname),
+			fmt.Sprintf(".rsync-symlink.%d", rand.Uint64()))
+		if err := root.Symlink(oldname, tmp); err != nil {
+			if os.IsExist(err) {
+				continue
+			}
+			return err
+		}
+		if err := root.Rename(tmp, newname); err != nil {
+			root.Remove(tmp)
+			return err
+		}
+		return nil
+	}
+	return fmt.Errorf("symlink %s: could not find an unused temporary name", newname)
 }
